@@ -80,6 +80,14 @@ func main() {
 			case "delete":
 				err = fs.Delete(ctx, op.Ref)
 			}
+			if err != nil && mode == "run" && sc.Retry {
+				switch op.Op {
+				case "put":
+					err = fs.Put(ctx, op.Ref, auth.Credential{Username: op.User, Password: op.Pass, RefreshToken: op.Refresh, AccessToken: op.Access})
+				case "delete":
+					err = fs.Delete(ctx, op.Ref)
+				}
+			}
 			if err != nil && mode == "run" {
 				fatal(80)
 			}
